@@ -92,3 +92,23 @@ Theorem C05_scalar_in_loop_refuted :
   exists evs rss, run_job ex_scalar_in_loop evs = JDone rss /\ rss <> map (event_rows ex_scalar_in_loop) evs.
 Proof. exact ex_scalar_in_loop_witness. Qed.
 Print Assumptions C05_scalar_in_loop_refuted.
+
+(* the First lowering (column assigned under a block-local flag, throw when the flag is still true) is
+   accepted: the analysis is precise enough for the translator's conditional assignments *)
+Example C05_first_accepted : event_local ex_first = true.
+Proof. exact ex_first_accepted. Qed.
+Example C05_first_rows :
+  run_job ex_first [ev_two; ev_two] = JDone [ [[VDbl (qz 30)]]; [[VDbl (qz 30)]] ] /\
+  run_job ex_first [ev_two; ev_none; ev_two] = JAbort [ [[VDbl (qz 30)]] ] 1 FThrow.
+Proof. exact ex_first_rows. Qed.
+
+(* known finding (DESIGN section 8 row 10): a terminal over a sequence produced inside an outer loop.  The
+   emitted program is rejected, and it does carry a value over: after an event with jets, an event without
+   jets repeats the previous event's value, while on its own it writes an unset column. *)
+Example C05_sum_after_selectmany_rejected : event_local ex_sum_after_selectmany = false.
+Proof. exact ex_sum_after_selectmany_rejected. Qed.
+Theorem C05_sum_after_selectmany_refuted :
+  run_job ex_sum_after_selectmany [ev_vals; ev_none] = JDone [ [[VDbl (qz 7)]]; [[VDbl (qz 7)]] ] /\
+  run_job ex_sum_after_selectmany [ev_none] = JDone [ [[VUninit]] ].
+Proof. exact ex_sum_after_selectmany_witness. Qed.
+Print Assumptions C05_sum_after_selectmany_refuted.
